@@ -112,7 +112,7 @@ impl FileStack {
 
                 let libpath = lib.path.join(&include.path);
                 debug!("searching for `{}` in `{}`", include.path, lib.path.display());
-                if fs::canonicalize(&libpath).is_ok() {
+                if let Ok(libpath) = fs::canonicalize(&libpath) {
                     debug!("adding include `{}` from directory", libpath.display());
                     self.stack.push(libpath);
                     return Ok(());
